@@ -1,4 +1,5 @@
 import NeoFS.Lemmas.BalanceLocks
+import NeoFS.Model.BalanceSystem
 /-! # C09 — Balance locks: funds stay on the lock account until burnt or until the first tick with
 `epoch ≥ until`; then exactly the remainder returns to the parent and the lock account disappears
 
@@ -192,5 +193,108 @@ example : (invoke (run init two) alpha (.newEpoch 3)).2 = some (none,
 example : getAcc (invoke (run init two) alpha (.newEpoch 3)).1.accts A = ⟨1000, 0, []⟩ ∧
     (invoke (run init two) alpha (.newEpoch 3)).1.accts.length = 1 := by decide
 example : (getAcc (invoke (run init h4) alpha (.burn L 60 [])).1.accts L) = Account.empty := by decide
+
+/-! ## The lock life cycle inside the system: ticks come from Netmap
+
+`NeoFS.BalanceSystem` composes the Balance model with the part of Netmap it depends on: `netmap.newEpoch(e)` is refused
+unless Alphabet-witnessed and `e` exceeds Netmap's epoch, and otherwise ticks the subscribed Balance contract with exactly
+that `e` in the same transaction (the driver executes this model for the harness operation `nmtick`, a real
+`netmap.newEpoch` on a chain where Balance is subscribed). -/
+section System
+open NeoFS.BalanceSystem
+
+/-- A Netmap tick goes through exactly when the Alphabet signs and the epoch grows … -/
+theorem system_tick_gate (d : BalanceSystem.State) (env : Env) (e : Int) :
+    (BalanceSystem.invoke d env (.nmtick e)).2.isSome = true ↔ (env.alphabet = true ∧ d.nmEpoch < e) := by
+  constructor
+  · intro h
+    by_cases hg : env.alphabet = true ∧ d.nmEpoch < e
+    · exact hg
+    · have : (env.alphabet && decide (d.nmEpoch < e)) = false := by
+        by_cases ha : env.alphabet = true
+        · have : ¬ d.nmEpoch < e := fun hl => hg ⟨ha, hl⟩
+          simp [this]
+        · simp [ha]
+      simp [BalanceSystem.invoke, this] at h
+  · rintro ⟨ha, hl⟩
+    simp [BalanceSystem.invoke, ha, hl, invoke_tick_alpha _ _ _ ha]
+
+/-- … then Balance is ticked with exactly that epoch and Netmap's epoch becomes `e`; a refused tick changes nothing in
+either contract. -/
+theorem system_tick_effect (d : BalanceSystem.State) (env : Env) (e : Int) :
+    (BalanceSystem.invoke d env (.nmtick e)).1 =
+      if env.alphabet = true ∧ d.nmEpoch < e then ⟨(Balance.invoke d.bal env (.newEpoch e)).1, e⟩ else d := by
+  by_cases hg : env.alphabet = true ∧ d.nmEpoch < e
+  · obtain ⟨ha, hl⟩ := hg
+    simp [BalanceSystem.invoke, ha, hl, invoke_tick_alpha _ _ _ ha]
+  · have : (env.alphabet && decide (d.nmEpoch < e)) = false := by
+      by_cases ha : env.alphabet = true
+      · have : ¬ d.nmEpoch < e := fun hl => hg ⟨ha, hl⟩
+        simp [this]
+      · simp [ha]
+    simp [BalanceSystem.invoke, this, hg]
+
+/-- Netmap's epoch never goes back, whatever is invoked by whomever: along every history of the system. -/
+theorem system_epoch_monotone (hist : List (Env × BalanceSystem.Op)) (d : BalanceSystem.State) :
+    d.nmEpoch ≤ (BalanceSystem.run d hist).nmEpoch := by
+  induction hist generalizing d with
+  | nil => exact Int.le_refl _
+  | cons x rest ih =>
+    obtain ⟨env, op⟩ := x
+    refine Int.le_trans ?_ (ih _)
+    cases op with
+    | bal op => simp [BalanceSystem.invoke]
+    | nmtick e =>
+      rw [system_tick_effect]
+      by_cases hg : env.alphabet = true ∧ d.nmEpoch < e
+      · simp [hg]; omega
+      · simp [hg]
+
+/-- **After every successful Netmap tick no lock is overdue**: no 20-byte address holds a lock record whose `until` is at
+or below Netmap's (new) epoch — all locks due at the tick were released by it, in the same transaction. -/
+theorem system_no_overdue_lock_after_tick (d : BalanceSystem.State) (env : Env) (e : Int) (h : SInv d.bal)
+    (hh : (BalanceSystem.invoke d env (.nmtick e)).2.isSome = true) :
+    ¬ ∃ k : Hash, k.length = 20 ∧ (getAcc (BalanceSystem.invoke d env (.nmtick e)).1.bal.accts k).parent ≠ [] ∧
+      (getAcc (BalanceSystem.invoke d env (.nmtick e)).1.bal.accts k).till ≤
+        (BalanceSystem.invoke d env (.nmtick e)).1.nmEpoch := by
+  have hg := (system_tick_gate d env e).mp hh
+  rw [system_tick_effect]; simp only [hg, and_self, if_true]
+  exact tick_releases_all d.bal env e h hg.1
+
+/-- the quantifier of C01/C09 along a history of the system (Netmap ticks carry no restriction) -/
+def SysWFHist (d : BalanceSystem.State) : List (Env × BalanceSystem.Op) → Prop
+  | [] => True
+  | (env, .bal op) :: rest => WFOp d.bal op ∧ SysWFHist (BalanceSystem.invoke d env (.bal op)).1 rest
+  | (env, .nmtick e) :: rest => SysWFHist (BalanceSystem.invoke d env (.nmtick e)).1 rest
+
+/-- The balance sheet of C01 holds after every history of the system as well (direct invocations and Netmap ticks
+interleaved in any way), so the hypothesis of `system_no_overdue_lock_after_tick` is met at every reachable state. -/
+theorem system_sheet_all_histories (hist : List (Env × BalanceSystem.Op)) (d : BalanceSystem.State) (h : SInv d.bal)
+    (hw : SysWFHist d hist) : SInv (BalanceSystem.run d hist).bal := by
+  induction hist generalizing d with
+  | nil => exact h
+  | cons x rest ih =>
+    obtain ⟨env, op⟩ := x
+    cases op with
+    | bal op =>
+      exact ih _ (by simpa [BalanceSystem.invoke] using inv_invoke d.bal env op h hw.1) hw.2
+    | nmtick e =>
+      refine ih _ ?_ hw
+      rw [system_tick_effect]
+      by_cases hg : env.alphabet = true ∧ d.nmEpoch < e
+      · simp only [hg, and_self, if_true]; exact inv_invoke d.bal env (.newEpoch e) h trivial
+      · simp only [hg, if_false]; exact h
+
+-- non-vacuity: a lock until epoch 2 survives the Netmap tick to 1 and is released by the tick to 2; a stale tick is refused
+def sysDemo : List (Env × BalanceSystem.Op) :=
+  [(alpha, .bal (.mint A 1000 [])), (alpha, .bal (.lock [] A L 100 2)), (alpha, .nmtick 1)]
+example : (getAcc (BalanceSystem.run BalanceSystem.init sysDemo).bal.accts L) = ⟨100, 2, A⟩ ∧
+    (BalanceSystem.run BalanceSystem.init sysDemo).nmEpoch = 1 := by decide
+example : (BalanceSystem.invoke (BalanceSystem.run BalanceSystem.init sysDemo) alpha (.nmtick 2)).2 =
+    some (none, [.transfer L A 100, .transferX L A 100 [4, 2]]) := by decide
+example : (BalanceSystem.invoke (BalanceSystem.run BalanceSystem.init sysDemo) alpha (.nmtick 1)).2 = none := by decide
+example : SysWFHist BalanceSystem.init sysDemo := by simp only [sysDemo, SysWFHist, WFOp]; decide
+
+end System
 
 end NeoFS.Props.C09
